@@ -78,11 +78,24 @@ func (b *c10GBuild) sx() hx.Sx {
 
 func c10GenGroup(c *hmain.Ctx) {
 	r := c.R
+	var lastObs hx.Sx
+	// a case that gets stuck costs up to 20 s of waiting; a regression that makes every session hang must not turn the
+	// check into hours: after 3 stuck cases (the check is red by then) the rest of the group streams is left out
+	stuck := 0
 	do := func(stream string, b *c10GBuild, nontrivial bool) {
+		if stuck >= 3 {
+			c.W.Count("group_cases_left_out_after_3_stuck")
+			return
+		}
+		defer func() {
+			if st := hx.Items(lastObs); len(st) > 0 && hx.Int(st[0]) == 3 {
+				stuck++
+			}
+		}()
 		c.W.Count("group_mode=" + strconv.Itoa(b.cfg[7]))
 		c.W.Count("group_balancer=" + c10Balancers[b.cfg[1]])
 		c.W.Count("group_offset_oldest=" + strconv.Itoa(b.cfg[0]))
-		c.Do(stream, 5, b.sx(), nontrivial)
+		lastObs = c.Do(stream, 5, b.sx(), nontrivial)
 	}
 
 	// ---- directed ---------------------------------------------------------------------------
@@ -98,6 +111,9 @@ func c10GenGroup(c *hmain.Ctx) {
 	for bal := 0; bal < 5; bal++ {
 		for oldest := 0; oldest < 2; oldest++ {
 			for _, buf := range []int{1, 256} {
+				if oldest == 0 && buf == 1 && bal%2 == 1 {
+					continue // a member that starts at the end needs ~40 ms per lifetime: fewer of those
+				}
 				// a later offset is committed before an earlier one; Stop commits it; the restart starts behind it
 				b := base([11]int{oldest, bal, bal % 2, buf, 1 + bal, bal % 2, buf % 2, 0, 0, []int{0, 2, 3}[(bal+oldest)%3], 0})
 				b.produce(c10GrFetch(0, 0, c10Rec3(6, 1, 0), c10Rec3(7, 2, 0)), c10GrFetch(1, 0, c10Rec3(12, 0, 0)))
@@ -263,7 +279,7 @@ func c10GenGroup(c *hmain.Ctx) {
 		}
 		do(stream, b, acts > 0 && len(b.phases) > 1)
 	}
-	for i := 0; i < 150*c.Scale; i++ {
+	for i := 0; i < 120*c.Scale; i++ {
 		gen("group", r.Intn(2))
 	}
 	if c10KnownListed(c10MetaFinding) {
